@@ -38,7 +38,13 @@ RULE = ("generated: per communicator size R in 1..8 and length L (0, 1, R-1, R, 
         "the SAME array — to the visited element, its neighbour and a far element — (kind=emit and sprinkled elsewhere; capacity 0 / 1 KB / default); "
         "explicit resize(new_len[, fill]) (new remainder len % R, len < R, shrinking, growing) is followed IMMEDIATELY, without a barrier, by "
         "updates from other ranks to every block of the new layout (kind=resize: 3-6 such steps, capacity 0, racer/late/burst schedules); "
-        "a case = (R, L, layout, routing, buffer, schedule seed, script); non-trivial = at least one update")
+        "kind=two: a second array of the same type (other length and default) alive next to the first, phases / resizes / emitting for_alls "
+        "interleaved between them, each judged against its own model and oracle; "
+        "two communicators in one process: a quarter of the multi-rank cases (deterministic in the case index, recorded in the case) run a scenario "
+        "of the same kind through the same code on sub-communicators of another size built with MPI_Comm_split (colour = world rank parity, or "
+        "rank < n-1 versus the last rank) before the world run (for a third of them after it); every communicator's part is judged with the same "
+        "oracle and model comparison; "
+        "a case = (R, L, layout, routing, buffer, schedule seed, script[, sub-communicator split, order and scenarios]); non-trivial = at least one update")
 
 M64 = (1 << 64) - 1
 FAMILIES = {"add": ["p", "m", "+", "-"], "mul": ["x"], "and": ["a"], "or": ["o"], "xor": ["e"], "land": ["A"], "lor": ["O"]}
@@ -207,6 +213,22 @@ def gen_case(rng, R, L, blocks, kind):
             ops += (["B"] if rng.random() < 0.5 else []) + ["F"]     # for_all starts with its own barrier
             if rng.random() < 0.3:
                 ops.append("V")
+        if kind == "two":      # a second array of the same type (other length, other default) alive next to the first; work interleaved
+            lens[1] = rng.choice([max(lens[0] - 1, 0), lens[0] + R + 1, rng.randrange(0, 3 * R + 2), R - 1 if R > 1 else 3])
+            ops += [f"N {lens[1]} {rng.choice([0, 7, 99, M64 - 3])}"]
+            for _ in range(rng.randrange(3, 7)):
+                tgt[0] = rng.randrange(2)
+                ops.append(f"T {tgt[0]}")
+                k = rng.random()
+                if k < 0.2:
+                    resize()
+                elif k < 0.4:
+                    emit()
+                else:
+                    phase()
+                ops.append("F")
+            ops += ["T 0", "F", "T 1", "F", "T 0"]
+            tgt[0] = 0
         if kind == "copy":
             ops += ["C", "T 1", "F"]
             lens[1] = lens[0]; tgt[0] = 1
@@ -230,8 +252,110 @@ def run_real(binary, case, sim_seed=None, policy=None):
     env = {"YGM_COMM_ROUTING": case["routing"]}
     if case["buffer_kb"] is not None:
         env["YGM_COMM_BUFFER_SIZE_KB"] = case["buffer_kb"]
-    return C.run_sim(binary, ["array", case["len"], case["dv"], case["script"]], nodes=case["nodes"], ppn=case["ppn"], env=env,
+    args = ["array", case["len"], case["dv"], case["script"]]
+    sub = case.get("sub")
+    if sub:      # the same scenario code first (or afterwards) on a sub-communicator of another size, in the same process
+        args = ["sub", sub["split"], sub["order"], len(sub["scen"])]
+        for size, u in sorted(sub["scen"].items(), key=lambda kv: int(kv[0])):
+            args += [size, f"array|{u['len']}|{u['dv']}|{u['script']}"]
+        args.append(f"array|{case['len']}|{case['dv']}|{case['script']}")
+    return C.run_sim(binary, args, nodes=case["nodes"], ppn=case["ppn"], env=env,
                      sim_seed=sim_seed or case["sim_seed"], policy=policy or case["policy"], want_log=False, timeout=120)
+
+
+class Sec:
+    """the part of a run's output that belongs to one communicator"""
+
+    def __init__(self, sr, outs):
+        self.verdict, self.stderr, self.blocked, self.outs = sr.verdict, sr.stderr, sr.blocked, outs
+
+
+def sub_groups(split, R):
+    """colour -> world ranks of that group (MPI_Comm_split with key = world rank)"""
+    g = {}
+    for r in range(R):
+        c = r % 2 if split == "parity" else ((r // int(split[7:])) % 2 if split.startswith("bynode:") else (0 if r < R - 1 else 1))
+        g.setdefault(c, []).append(r)
+    return g
+
+
+def add_sub(case, k, gen_unit):
+    """deterministically give a quarter of the multi-rank cases the two-communicator dimension; gen_unit(size) -> scenario for a
+    communicator of that size"""
+    R = case["ranks"]
+    if R < 2 or k % 4 != 3:
+        return
+    # ygm::layout assumes the same number of ranks on every node: only splits that keep the sub-communicator's layout uniform
+    nodes, ppn = case["nodes"], case["ppn"]
+    options = (["parity", "droplast"] if (nodes == 1 or ppn == 1) else (["parity"] if ppn % 2 == 0 else [])) + ([f"bynode:{ppn}"] if nodes >= 2 else [])
+    split = options[(k // 4) % len(options)]
+    sizes = sorted({len(v) for v in sub_groups(split, R).values()})
+    # every group runs the SAME scenario (written for the smallest group; ranks it names that a group lacks... do not occur, larger groups
+    # just have ranks that issue nothing): ygm_ptr hands out per-process indices and checks them collectively, so all ranks of the
+    # process set must construct the same number of containers before the world run
+    unit = gen_unit(sizes[0])
+    case["sub"] = {"split": split, "order": "sub-first" if (k // 8) % 3 != 2 else "world-first",
+                   "scen": {str(z): unit for z in sizes}}
+
+
+def sections(case, sr):
+    """[(label, unit case, Sec)]: the world run and, with the two-communicator dimension, one entry per sub-communicator"""
+    R = case["ranks"]
+    sub = case.get("sub")
+    if not sub:
+        return [("world", case, Sec(sr, sr.outs))]
+    world, subs = {}, {}
+    for r in range(R):
+        cur = None
+        for l in sr.outs.get(r, []):
+            if l.startswith("@sub "):
+                _, c, srank, _ = l.split()
+                cur = subs.setdefault(int(c), {}).setdefault(int(srank), [])
+            elif l == "@world":
+                cur = world.setdefault(r, [])
+            elif cur is not None:
+                cur.append(l)
+    res = [("world", case, Sec(sr, world))]
+    for c, ranks in sorted(sub_groups(sub["split"], R).items()):
+        u = sub["scen"][str(len(ranks))]
+        unit = dict(case, ranks=len(ranks), len=u["len"], dv=u["dv"], script=u["script"])
+        res.append((f"sub-communicator colour {c} ({len(ranks)} of {R} ranks, {sub['split']}, {sub['order']})", unit, Sec(sr, subs.get(c, {}))))
+    return res
+
+
+def units(case):
+    """the scenarios of a case whose model answer is needed, in a fixed order: world, then the sub sizes"""
+    us = [case]
+    sub = case.get("sub")
+    if sub:
+        for c, ranks in sorted(sub_groups(sub["split"], case["ranks"]).items()):
+            u = sub["scen"][str(len(ranks))]
+            us.append(dict(case, ranks=len(ranks), len=u["len"], dv=u["dv"], script=u["script"]))
+    return us
+
+
+def judge(case, sr, mouts):
+    """evaluate every communicator's part of the run; mouts: model answers in the order of units(case) (or None)"""
+    of, cf = [], []
+    cid = case_id(case)
+    for k, (label, unit, sec) in enumerate(sections(case, sr)):
+        o, c = evaluate(unit, sec, mouts[k] if mouts else None)
+        if label != "world":
+            for f in o + c:
+                f["what"] = f"[{label}] " + f["what"]
+                f["case"] = dict(cid, failed_in=label, detail={kk: vv for kk, vv in (f.get("case") or {}).items() if kk not in cid})
+        of += o
+        cf += c
+        if sr.verdict != "ok":
+            break
+    return of, cf
+
+
+def case_id(case):
+    cid = {k: case[k] for k in ("ranks", "len", "dv", "script", "nodes", "ppn", "routing", "buffer_kb", "sim_seed", "policy")}
+    if case.get("sub"):
+        cid["sub"] = case["sub"]
+    return cid
 
 
 def model_line(case):
@@ -244,7 +368,7 @@ def model_line(case):
             toks.append(f[0])
         elif f[0] == "T":
             toks.append("T:" + f[1])
-        elif f[0] in ("Z", "E"):
+        elif f[0] in ("Z", "E", "N"):
             toks.append(":".join(f))
         else:
             toks.append(":".join([f[0]] + f[2:]))     # the issuing rank is irrelevant to the model
@@ -271,17 +395,20 @@ def oracle_expected(case):
         raise IndexError(i)
 
     arrs = [fresh(case["len"], case["dv"]), None]
+    dvs = [case["dv"], case["dv"]]
     cur, dumps = 0, []
     for op in case["script"].split(";"):
         f = op.split()
         if f[0] == "B":
             continue
         if f[0] == "C":
-            arrs[1] = [list(v) for v in arrs[0]]
+            arrs[1] = [list(v) for v in arrs[0]]; dvs[1] = dvs[0]
+        elif f[0] == "N":
+            arrs[1] = fresh(int(f[1]), int(f[2])); dvs[1] = int(f[2])
         elif f[0] == "T":
             cur = int(f[1])
         elif f[0] == "Z":
-            n = int(f[1]); fill = int(f[2]) if len(f) > 2 else case["dv"]
+            n = int(f[1]); fill = int(f[2]) if len(f) > 2 else dvs[cur]
             arrs[cur] = [(v[:z] + [fill] * max(0, z - len(v))) for v, z in zip(arrs[cur], py_blocks(n, R)[1])]
         elif f[0] == "E":
             # every callback modifies its own element once (through the reference) and emits k rounds of three updates; all of one
@@ -311,7 +438,7 @@ def evaluate(case, sr, model_out):
     """returns (oracle failures, correspondence failures)"""
     of, cf = [], []
     R, L = case["ranks"], case["len"]
-    cid = {k: case[k] for k in ("ranks", "len", "dv", "script", "nodes", "ppn", "routing", "buffer_kb", "sim_seed", "policy")}
+    cid = case_id(case)
     if sr.verdict != "ok":
         sig = "array-run-failed " + sr.verdict.split(":")[0]
         if "signal 8" in sr.verdict:
@@ -382,7 +509,7 @@ def run(tier, seed, model_ok=True):
         for k in range(per_size):
             L = fixed[k] if k < len(fixed) else rng.choice([rng.randrange(0, R + 1), rng.randrange(R, 41), rng.randrange(1, 41)])
             L = max(L, 0)
-            kind = "seq" if R == 1 and k % 2 == 0 else ("copy" if k % 5 == 4 else ("resize" if k % 3 == 1 else ("emit" if k % 3 == 2 else "phases")))
+            kind = "seq" if R == 1 and k % 2 == 0 else ("two" if k % 10 == 9 else "copy" if k % 5 == 4 else ("resize" if k % 3 == 1 else ("emit" if k % 3 == 2 else "phases")))
             plan.append((R, L, kind))
     # block boundaries from the proved partition model
     tabs = {}
@@ -392,19 +519,31 @@ def run(tier, seed, model_ok=True):
             parts = [p.strip().split() for p in o.split("|")]
             tabs[(R, L)] = ([int(x) for x in parts[1][1:]], [int(x) for x in parts[2][1:]])
     cases = []
-    for R, L, kind in plan:
+    for k, (R, L, kind) in enumerate(plan):
         blocks = tabs.get((R, L)) or ([0] * R, [0] * R)
-        cases.append(gen_case(rng, R, L, blocks, kind))
-    mouts = C.model("array", [model_line(c) for c in cases]) if model_ok else [None] * len(cases)
+        case = gen_case(rng, R, L, blocks, kind)
+        rng2 = random.Random(seed * 611953 + k)      # separate stream: the world scenarios stay what they were
+
+        def gen_unit(size, kind=kind, rng2=rng2, L=L):
+            u = gen_case(rng2, size, rng2.choice([L, max(L - 1, 0), size - 1, 2 * size + 1]), None, "phases" if kind == "seq" else kind)
+            return {"len": u["len"], "dv": u["dv"], "script": u["script"]}
+        add_sub(case, k, gen_unit)
+        cases.append(case)
+    allunits = [u for c in cases for u in units(c)]
+    allm = C.model("array", [model_line(u) for u in allunits]) if model_ok else [None] * len(allunits)
+    mouts, pos = [], 0
+    for c in cases:
+        n = len(units(c))
+        mouts.append(allm[pos:pos + n]); pos += n
     runs = C.pmap(lambda c: run_real(binary, c), cases)
     for case, sr, mo in zip(cases, runs, mouts):
         res.evaluations += 1
-        of, cf = evaluate(case, sr, mo)
+        of, cf = judge(case, sr, mo)
         if cf and not of:
             # search around the disagreeing case for an input on which the property itself fails
             for k in range(6):
                 sr2 = run_real(binary, case, sim_seed=case["sim_seed"] + 1 + k, policy=POLICIES[k % len(POLICIES)])
-                of2, _ = evaluate(dict(case, sim_seed=case["sim_seed"] + 1 + k, policy=POLICIES[k % len(POLICIES)]), sr2, None)
+                of2, _ = judge(dict(case, sim_seed=case["sim_seed"] + 1 + k, policy=POLICIES[k % len(POLICIES)]), sr2, None)
                 if of2:
                     of = of2
                     break
@@ -420,6 +559,8 @@ def run(tier, seed, model_ok=True):
         res.count("updates", case["updates"])
         res.count("resizes", case.get("resizes", 0))
         res.count("emitting_for_alls", case.get("emits", 0))
+        if case.get("sub"):
+            res.count("two-communicators:" + case["sub"]["split"] + ":" + case["sub"]["order"])
         if sr.verdict == "ok":
             res.traces_validated += 1
         if case["ranks"] == 4 and case["len"] in (3, 5, 7) and case["updates"]:
@@ -442,12 +583,12 @@ def replay(data):
     for r in range(case["ranks"]):
         print(r, sr.outs.get(r))
     try:
-        mo = C.model("array", [model_line(case)])[0]
+        mo = C.model("array", [model_line(u) for u in units(case)])
     except Exception as ex:  # noqa: BLE001
         print("model unavailable:", ex)
         mo = None
     print("model", mo)
-    of, cf = evaluate(case, sr, mo)
+    of, cf = judge(case, sr, mo)
     for f in of + cf:
         print("FAIL", f.get("signature") or f.get("relation"), f["what"])
     return not of and not cf
